@@ -61,7 +61,11 @@ class Broker:
         if self.log is not None:
             self.log.add('KAFKA', 'broker', *a)
 
-    def produce(self, partition, key=None):
+    def produce(self, partition, key=None, hole_before=False):
+        if hole_before:
+            # an offset that carries no message for consumers (transaction marker, compacted-away record): poll() skips it
+            self.logs[partition].append(None)
+            self.note('hole', partition, len(self.logs[partition]) - 1)
         off = len(self.logs[partition])
         value = ('p%d-o%d' % (partition, off)).encode()
         self.logs[partition].append((key, value))
@@ -115,6 +119,8 @@ class Consumer:
         if self.assigned is None:
             return None
         t, p = self.assigned
+        while self.pos < len(self.b.logs[p]) and self.b.logs[p][self.pos] is None:
+            self.pos += 1
         if self.pos < len(self.b.logs[p]):
             k, v = self.b.logs[p][self.pos]
             m = Message(t, p, self.pos, k, v)
